@@ -377,6 +377,30 @@ class Ctx:
                     return True
         return False
 
+    def mut_target(self, call, idx=0):
+        """[(adt, field)] of the place whose `&mut` is passed as argument idx (the thing a `+=` / `-=` / mutator updates)"""
+        f = call.fn
+        a = call.args[idx]
+        if a[0] not in ('m', 'c') or a[1][1]:
+            return []
+        l = a[1][0]
+        for _ in range(4):
+            ds = [d for d in f.defs.get(l, []) if d[0] == '=']
+            if len(ds) != 1:
+                return []
+            rv = ds[0][4]
+            if rv[0] in ('ref', 'rawptr'):
+                return place_fields(rv[2])
+            if rv[0] == 'use' and rv[1][0] in ('m', 'c') and not rv[1][1][1]:
+                l = rv[1][1][0]
+                continue
+            return []
+        return []
+
+    def updates_field(self, call, adt, field, idx=0):
+        t = self.mut_target(call, idx)
+        return bool(t) and t[-1][1] == field and (t[-1][0] == adt or t[-1][0].endswith('::' + adt))
+
     # ------------------------------------------------------------------ K10 argument atoms
     def arg_has(self, rule, key, call, idx, pats, what, narrow=True, forbid=()):
         sl = self.N if narrow else self.S
